@@ -86,11 +86,25 @@ def exec_notdef(case):
 
     names = [nm or glyph_name(g[0]) for nm, g in zip(names, glyphs)]
     fmt = case["fmt"]
+    bitmaps = None
+    over = {"color_format": fmt, "output_file": "x.otf" if fmt.startswith("cff") else "x.ttf"}
+    if fmt in ("cbdt", "sbix"):
+        from nanoemoji.png import PNG
+
+        bitmaps = [PNG(pngs.png(64, 64, i)) for i in range(len(glyphs))]
+        glyphs = [(cps, None) for cps, _ in glyphs]
+        over["bitmap_resolution"] = 64
     try:
-        cfg, font, data = inproc.build_direct(glyphs, {"color_format": fmt, "output_file": "x.otf" if fmt.startswith("cff") else "x.ttf"}, names=names)
+        cfg, font, data = inproc.build_direct(glyphs, over, names=names, bitmaps=bitmaps)
     except Exception as e:
         return [bad("C07.build", f"coloured .notdef at position {pos}: {type(e).__name__}: {e}")]
-    problems = structure.check(data, want_names=False)
+    want = None
+    if bitmaps:
+        # the colour glyphs: .notdef and the glyph of every source (glyph ids 0, 2, 3, ...: the space glyph sits between)
+        from vmc.oracles import shaper
+
+        want = {0} | {font.getGlyphID(shaper.shape(font, cps)[0]) for cps, _ in glyphs if cps}
+    problems = structure.check(data, want_names=False, bitmap_glyphs=want)
     if problems:
         return [bad(c, d) for c, d in problems[:6]]
     return [ok("C07.valid", f"notdef:{fmt}")]
@@ -153,7 +167,7 @@ def run(report, tier, only=None):
         cases = [{"kind": "set", "members": [a, b], "fmt": f, "keep": f == "picosvgz", "style": st}
                  for a, b in itertools.combinations(range(len(c04.UNIVERSE)), 2) for f in fmts for st in ("emoji_u", "dash")]
         vec = [f for f in FORMATS if f not in ("cbdt", "sbix")]
-        cases += [{"kind": "notdef", "n": n, "pos": p, "fmt": f} for f in vec for n in (1, 2, 3) for p in range(n + 1)]
+        cases += [{"kind": "notdef", "n": n, "pos": p, "fmt": f} for f in vec + ["cbdt", "sbix"] for n in (1, 2, 3) for p in range(n + 1)]
         listing.run(report, cases, execute, timeout=300)
     if only in (None, "cli"):
         from vmc.props import c07_cli
